@@ -103,6 +103,8 @@ class Check:
         maxlvl = max([n["path"].count("/") for n in world["nodes"]] + [1])
         for t in tops:
             roots.append({"top": t, "kind": rng.choice(["rel", "rel", "dotrel", "abs"]),
+                          # ignore-file handling switched on although no ignore file exists: must change nothing
+                          "ign": rng.choice(["", "", "", "", "hg", "docker", "hgignore dockerignore", "git"]),
                           # depth windows anywhere in the tree: a level miscounted after a fault only shows at a window border
                           "mind": 0 if rng.random() < 0.4 else rng.randint(1, maxlvl + 1), "maxd": 0 if rng.random() < 0.4 else rng.randint(1, maxlvl + 2),
                           "mode": rng.choice(["bfs", "dfs"])})
@@ -195,7 +197,8 @@ class Check:
         if not files:
             world["nodes"].append({"path": tops[0] + "/f0.txt", "type": "file", "content": "#!ab\nab\n"})
             files = [tops[0] + "/f0.txt"]
-        roots = [{"top": tops[0], "kind": rng.choice(["rel", "dotrel", "abs"]), "mind": 0, "maxd": 0, "mode": rng.choice(["bfs", "dfs"])}]
+        roots = [{"top": tops[0], "kind": rng.choice(["rel", "dotrel", "abs"]), "mind": 0, "maxd": 0, "mode": rng.choice(["bfs", "dfs"]),
+                  "ign": rng.choice(["", "", "", "hg", "docker"])}]
         _, env = gen.gen_env(rng, world)
         nm = gen.node_map(world)
         faults = []
@@ -282,8 +285,8 @@ class Check:
                 c = copy.deepcopy(case)
                 del c["roots"][i]
                 yield c
-            for k, v in (("mind", 0), ("maxd", 0), ("mode", "bfs"), ("kind", "rel")):
-                if r[k] != v:
+            for k, v in (("mind", 0), ("maxd", 0), ("mode", "bfs"), ("kind", "rel"), ("ign", "")):
+                if r.get(k, v) != v:
                     c = copy.deepcopy(case)
                     c["roots"][i][k] = v
                     yield c
@@ -308,6 +311,8 @@ class Check:
             if r["maxd"]:
                 s += " maxdepth %d" % r["maxd"]
             s += " " + r["mode"]
+            if r.get("ign"):
+                s += " " + r["ign"]
             parts.append(s)
         return " from " + ", ".join(parts)
 
@@ -417,7 +422,7 @@ class Check:
                 q = "select " + col + self.from_clause(roots) + " into list"
             fkind = "+".join(sorted({(f.get("fail") or {}).get("call", "") + (f.get("fail") or {}).get("errno", "") + (f.get("mutate") or {}).get("action", "") for f in case["faults"]})) or "none"
 
-            def expected(blocked):
+            def expected(blocked, drop_self=()):
                 exp = collections.Counter()
                 for r in roots:
                     if r["top"] in blocked:
@@ -426,6 +431,8 @@ class Check:
                         if not gen.in_window(lvl, r["mind"], r["maxd"]):
                             continue
                         full = node["path"]
+                        if full in drop_self:
+                            continue
                         anc = full.rsplit("/", 1)[0]
                         cut = False
                         while len(anc) >= len(r["top"]):
@@ -498,7 +505,10 @@ class Check:
                             if p in nm and nm[p]["type"] == "dir" and must_enter(p):
                                 failed.add(p)
                     elif m.group(1) == "realpath":
-                        realpath_failed.add(p)
+                        # only a directory the walk has to enter: a walker may canonicalise any entry for other purposes
+                        # (ignore-file matching does), and a dangling link then fails to resolve without anything being unlistable
+                        if p in nm and nm[p]["type"] == "dir" and must_enter(p):
+                            realpath_failed.add(p)
                     else:
                         failed.add(p)
                     continue
@@ -513,7 +523,9 @@ class Check:
             # entries of a directory that vanished (or was replaced) after it had been opened may or may not have been
             # read before the race: rows inside such a directory are allowed, not required (like a mid-stream error)
             hard = expected(failed)
-            soft = expected(failed | mutated | mid)
+            # ... and the raced entry's own row is optional too: the race may strike before its parent is listed
+            # (e.g. when a link to it is canonicalised earlier in the walk)
+            soft = expected(failed | mutated | mid, drop_self=mutated)
             got = observe(res)
             if shape == "count":
                 ok = got is not None and sum(soft.values()) <= got <= sum(hard.values())
